@@ -18,6 +18,17 @@ var helperOwner map[string]string // "pkg.helper" -> "pkg.Owner"
 
 // localFuncValues: locals with exactly one definition, which is a method value (x.M) or a declared function: a call
 // through such a local is a call of that function; sel is the method value's selector (nil for a plain function).
+// helperCallSites: the call sites of every unexported package-level function (by plain name), with the function they
+// stand in. helperEscapes: its value is also used other than by calling it (then the call sites are not all its uses).
+type helperCallSite struct {
+	info *types.Info
+	fd   *ast.FuncDecl
+	call *ast.CallExpr
+}
+
+var helperCallSites map[*types.Func][]helperCallSite
+var helperEscapes = map[*types.Func]bool{}
+
 type localFuncValue struct {
 	fn  *types.Func
 	sel *ast.SelectorExpr
@@ -67,6 +78,7 @@ func computeOwners(p *Prog) {
 	}
 	recs := map[*types.Func]*rec{}
 	names := map[*types.Func]string{}
+	helperCallSites = map[*types.Func][]helperCallSite{}
 	p.funcDecls(func(pk *packages.Package, fd *ast.FuncDecl) {
 		f, _ := pk.TypesInfo.Defs[fd.Name].(*types.Func)
 		if f == nil {
@@ -91,6 +103,7 @@ func computeOwners(p *Prog) {
 					if f, ok := info.Uses[id].(*types.Func); ok {
 						if r := recs[f]; r != nil {
 							r.callers[caller] = true
+							helperCallSites[f] = append(helperCallSites[f], helperCallSite{info, fd, call})
 						}
 					}
 				}
@@ -103,6 +116,7 @@ func computeOwners(p *Prog) {
 				if f, ok := info.Uses[id].(*types.Func); ok {
 					if r := recs[f]; r != nil {
 						r.escaped = true
+						helperEscapes[f] = true
 					}
 				}
 			}
